@@ -1,0 +1,145 @@
+//go:build verif
+
+package gohlslib
+
+import (
+	"context"
+	"time"
+
+	"github.com/bluenviron/mediacommon/v2/pkg/formats/fmp4"
+
+	"github.com/bluenviron/gohlslib/v2/pkg/codecs"
+)
+
+// Exporters of the unexported client time-conversion code for the /verif
+// correspondence harness (slice timeconv, property C10). Add-only, build tag verif.
+
+// VerifTimeConvFMP4Convert calls clientTimeConvFMP4.convert.
+func VerifTimeConvFMP4Convert(leadingTimeScale int64, leadingBaseTime int64, v int64, clockRate int) int64 {
+	tc := &clientTimeConvFMP4{
+		leadingTimeScale: leadingTimeScale,
+		leadingBaseTime:  leadingBaseTime,
+	}
+	tc.initialize()
+	return tc.convert(v, clockRate)
+}
+
+// VerifTimeConvFMP4NTP calls clientTimeConvFMP4.setNTP (when avail) and then getNTP.
+func VerifTimeConvFMP4NTP(
+	leadingTimeScale int64, leadingBaseTime int64,
+	avail bool, ntpValue time.Time, ntpTimestamp int64, ntpClockRate int,
+	timestamp int64, clockRate int,
+) *time.Time {
+	tc := &clientTimeConvFMP4{
+		leadingTimeScale: leadingTimeScale,
+		leadingBaseTime:  leadingBaseTime,
+	}
+	tc.initialize()
+	if avail {
+		tc.setNTP(ntpValue, ntpTimestamp, ntpClockRate)
+	}
+	tc.setLeadingNTPReceived()
+	tc.setLeadingNTPReceived() // idempotent
+	return tc.getNTP(context.Background(), timestamp, clockRate)
+}
+
+// VerifTimeConvMPEGTSConvert initializes a clientTimeConvMPEGTS and converts the values in order.
+func VerifTimeConvMPEGTSConvert(startDTS int64, vals []int64) []int64 {
+	tc := &clientTimeConvMPEGTS{startDTS: startDTS}
+	tc.initialize()
+	out := make([]int64, len(vals))
+	for i, v := range vals {
+		out[i] = tc.convert(v)
+	}
+	return out
+}
+
+// VerifTimeConvMPEGTSNTP calls clientTimeConvMPEGTS.setNTP (when avail) and then getNTP.
+func VerifTimeConvMPEGTSNTP(startDTS int64, avail bool, ntpValue time.Time, ntpTimestamp int64, timestamp int64) *time.Time {
+	tc := &clientTimeConvMPEGTS{startDTS: startDTS}
+	tc.initialize()
+	if avail {
+		tc.setNTP(ntpValue, ntpTimestamp)
+	}
+	tc.setLeadingNTPReceived()
+	return tc.getNTP(context.Background(), timestamp)
+}
+
+// VerifDelivery is one onData call as seen by a clientTrack.
+type VerifDelivery struct {
+	PTS  int64
+	DTS  int64
+	NTP  *time.Time
+	Data [][]byte
+}
+
+type verifStreamProcStub struct{ done int }
+
+func (s *verifStreamProcStub) onPartTrackProcessed(context.Context) { s.done++ }
+func (s *verifStreamProcStub) onPartProcessorDone(context.Context)  { s.done++ }
+
+func verifClientTrack(codec codecs.Codec, clockRate int, out *[]VerifDelivery) *clientTrack {
+	ct := &clientTrack{
+		track: &Track{Codec: codec, ClockRate: clockRate},
+		// startRTC stays the zero time: time.Since saturates, so handleData never sleeps
+	}
+	ct.onData = func(pts int64, dts int64, data [][]byte) {
+		ntp, ok := ct.absoluteTime()
+		var p *time.Time
+		if ok {
+			v := ntp
+			p = &v
+		}
+		*out = append(*out, VerifDelivery{PTS: pts, DTS: dts, NTP: p, Data: data})
+	}
+	return ct
+}
+
+// VerifTrackProcessorFMP4Process runs clientTrackProcessorFMP4.initialize and .process on one part-track.
+func VerifTrackProcessorFMP4Process(
+	codec codecs.Codec, clockRate int,
+	entryDTS int64, entryNTP *time.Time, samples []*fmp4.PartSample,
+) ([]VerifDelivery, error) {
+	var out []VerifDelivery
+	stub := &verifStreamProcStub{}
+	tp := &clientTrackProcessorFMP4{
+		track:           verifClientTrack(codec, clockRate, &out),
+		streamProcessor: stub,
+	}
+	err := tp.initialize()
+	if err != nil {
+		return nil, err
+	}
+	err = tp.process(context.Background(), &procEntryFMP4{
+		partTrack: &fmp4.PartTrack{Samples: samples},
+		dts:       entryDTS,
+		ntp:       entryNTP,
+	})
+	return out, err
+}
+
+// VerifTSEntry is one sample handed to a clientTrackProcessorMPEGTS.
+type VerifTSEntry struct {
+	PTS  int64
+	DTS  int64
+	NTP  *time.Time
+	Data [][]byte
+}
+
+// VerifTrackProcessorMPEGTSProcess runs clientTrackProcessorMPEGTS.process on the entries.
+func VerifTrackProcessorMPEGTSProcess(codec codecs.Codec, clockRate int, entries []VerifTSEntry) ([]VerifDelivery, error) {
+	var out []VerifDelivery
+	stub := &verifStreamProcStub{}
+	tp := &clientTrackProcessorMPEGTS{
+		track:           verifClientTrack(codec, clockRate, &out),
+		streamProcessor: stub,
+	}
+	tp.initialize()
+	for _, e := range entries {
+		err := tp.process(context.Background(), &procEntryMPEGTS{pts: e.PTS, dts: e.DTS, ntp: e.NTP, data: e.Data})
+		if err != nil {
+			return out, err
+		}
+	}
+	return out, tp.process(context.Background(), nil)
+}
